@@ -48,4 +48,3 @@ func (s *seqRT) generatorType() (*types.Named, types.Type) {
 	}
 	return nt.Origin(), d.T
 }
-
